@@ -93,7 +93,10 @@ OnHead(s, e, ln) ==
                      /\ ~C14_Echo(req, s.mainH, e.echo, h) THEN {"C14"} ELSE {}
       bs0 == InitBody(h, isGet)
       bs1 == [bs0 EXCEPT !.calls = ApplyEnvSeq(<<>>, e.env, 1)]
-      inDom == judged /\ ImplDomain(req2)
+      \* (requests with thousands of ranges are judged by the property predicates only: replaying the
+      \*  Impl model over them costs recursion depth for nothing)
+      huge == req2.abs.range.k = "set" /\ Len(req2.abs.range.specs) > 1000
+      inDom == judged /\ ~huge /\ ImplDomain(req2)
       ih == ImplHead(req2, h.date.v)
       dr == IF Strict /\ inDom /\ (req2.ent.mt.k = "none" \/ h.date.k = "secs")
             THEN IF HeadCore(h) # ImplCore(IF req2.ent.mt.k = "none" THEN ImplHead(req2, 0) ELSE ih)
